@@ -114,6 +114,8 @@ def classify_log(text, rc):
     if m: return "asan:" + m.group(1)
     if "ERROR: LeakSanitizer" in text: return "lsan:leak"
     if "ThreadSanitizer: data race" in text: return "tsan:race"
+    m = re.search(r"ThreadSanitizer: (SEGV|BUS|FPE|ILL|ABRT)", text)
+    if m: return "signal:" + m.group(1)
     m = re.search(r"ThreadSanitizer: ([A-Za-z0-9_ -]+)", text)
     if m: return "tsan:" + m.group(1).strip().replace(" ", "_")
     m = re.search(r"runtime error: ([^\n]{0,80})", text)
@@ -265,10 +267,11 @@ def minimise_and_confirm(prop, cls, stage, viol_file, replay_dir, prev_file=None
     if (rc != 0 or not os.path.exists(tmp)) and cls == "lsan:leak" and prev_file and os.path.exists(prev_file):
         # LeakSanitizer may notice a block one run late (a stale pointer kept it reachable): try the run before
         rc, out, err = run_tool(stage, ["--minimise", prev_file, "--class", cls, "--out", tmp, "--budget", os.environ.get("VERIF_MIN_BUDGET", "400")], timeout=1800)
-    if (rc != 0 or not os.path.exists(tmp)) and cls == "lsan:leak":
+    if (rc != 0 or not os.path.exists(tmp)) and cls.startswith(SANITIZER_PREFIXES):
         # a leak that needs the history of earlier runs in the same worker process (e.g. a function-local
-        # static of the library that survives from run to run) cannot be shown by a single-run replay
-        raise Unattributed("lsan:leak flagged by %s but not reproducible from a single run" % stage["engine"])
+        # static of the library that survives from run to run) cannot be shown by a single-run replay; a crash
+        # caused by undefined behaviour (reading freed memory) need not repeat with the same symptom either
+        raise Unattributed("%s flagged by %s/%s but not reproducible from a single run" % (cls, stage["engine"], stage["flavour"]))
     if rc != 0 or not os.path.exists(tmp):
         # the violation did not reproduce in a child process: nondeterminism in the harness, never a report
         harness_error("violation %s of %s did not reproduce during minimisation (rc=%s): %s %s" % (cls, prop, rc, out[-500:], err[-1500:]))
@@ -311,12 +314,12 @@ def check_property(prop, tier, seed, stages=None, extra_cov=None, class_filter=N
     viol = []     # (cls, stage, file, res)
     for j in all_results:
         for cls in j["classes"]:
-            if cls.startswith(SANITIZER_PREFIXES) and prop != "C07" and not (prop in RACE_PROPS and cls.startswith("tsan:")): continue
+            if cls.startswith(SANITIZER_PREFIXES) and prop != "C07" and not (prop in RACE_PROPS and cls == "tsan:race"): continue
             if class_filter and not class_filter(cls, j): continue
             viol.append((cls, j["_stage"], j.get("viol_file"), j))
     crash_other = 0
     for st, cls, f, idx, tail in all_crashes:
-        if prop == "C07" or cls == "hang" or (prop in RACE_PROPS and cls.startswith("tsan:")) or st.get("crash_counts"):
+        if prop == "C07" or cls == "hang" or (prop in RACE_PROPS and cls == "tsan:race") or st.get("crash_counts"):
             viol.append((cls, st, f, {"i": idx, "entry": "", "classes": [cls], "_stage": st, "detail": {"log_tail": tail[-800:]}}))
         else:
             crash_other += 1
